@@ -36,6 +36,7 @@ type Clause struct {
 	Line int
 	File string
 	Loop int
+	Hint bool
 }
 
 type FuncContract struct {
@@ -50,6 +51,7 @@ type FuncContract struct {
 	LoopInv    map[int][]*Clause
 	LoopDec    map[int]*Clause
 	LoopMod    map[int][]*Clause
+	LoopHint   map[int][]*Clause // `loop K: hint E`: instances of spec-function definitions (unfold), assumed
 	MayPanic   bool
 	Trusted    bool // contract assumed, body not verified (listed as assumption)
 	NoSafety   bool
@@ -249,6 +251,13 @@ func parseContractFile(path string) (*PkgContracts, error) {
 				cl := &Clause{Kind: "modifies", Text: strings.TrimSpace(r2[len("modifies"):]), Line: ln, File: path, Loop: k}
 				cur.LoopMod[k] = append(cur.LoopMod[k], cl)
 				last = cl
+			case strings.HasPrefix(r2, "hint"):
+				cl := &Clause{Kind: "invariant", Text: strings.TrimSpace(r2[len("hint"):]), Line: ln, File: path, Loop: k, Hint: true}
+				if cur.LoopHint == nil {
+					cur.LoopHint = map[int][]*Clause{}
+				}
+				cur.LoopHint[k] = append(cur.LoopHint[k], cl)
+				last = cl
 			default:
 				return nil, fmt.Errorf("%s:%d: bad loop clause", path, ln)
 			}
@@ -306,6 +315,9 @@ func (fc *FuncContract) allClauses() []*Clause {
 	}
 	for _, c := range fc.LoopDec {
 		out = append(out, c)
+	}
+	for _, cs := range fc.LoopHint {
+		out = append(out, cs...)
 	}
 	return out
 }
